@@ -1,5 +1,6 @@
 """C20 - the duties cache answers exactly what the beacon node would answer (app/eth2wrap/cache.go)."""
 import json
+import os
 import vlib
 from vlib import log
 
@@ -374,6 +375,8 @@ def run(tier, seed):
     # stage 0: design check
     cfgs = (["DutiesCacheMC.cfg", "DutiesCacheMC_mid.cfg", "DutiesCacheMC_2kinds.cfg", "DutiesCacheMC_trim.cfg"] if thorough
             else ["DutiesCacheMC_quick.cfg", "DutiesCacheMC_trim.cfg"])
+    if os.environ.get("VERIF_C20_NOMC"):      # development only (mutation experiments): skip the repo-independent stage 0
+        cfgs = []
     for cfg in cfgs:
         r = vlib.tlc(PID, FAMILY, "DutiesCacheMC", cfg, timeout=1700)
         vlib.require_mc_ok(r, cfg)
@@ -390,13 +393,13 @@ def run(tier, seed):
     # stage 1: schedules
     scheds, g = vlib.gen_schedules(PID, FAMILY, "DutiesCacheGen", "DutiesCacheGen.cfg", num=1500 if thorough else 150,
                                    depth=90, seed=seed, timeout=600)
-    scheds = thin(scheds)[:4000 if thorough else 300]
+    scheds = thin(scheds)[:4000 if thorough else 200]
     probes = probe_schedules()
-    rnd = random_schedules(seed, 3000 if thorough else 350, thorough, False)
-    par = random_schedules(seed, 1500 if thorough else 150, thorough, True)
+    rnd = random_schedules(seed, 3000 if thorough else 250, thorough, False)
+    par = random_schedules(seed, 1500 if thorough else 100, thorough, True)
     # stage 2+3
     T, C = "DutiesCacheTrace", "DutiesCacheTrace.cfg"
-    ch = 100 if thorough else 25      # traces per TLC process (validation runs NCPU processes side by side)
+    ch = 100 if thorough else 40      # traces per TLC process (validation runs NCPU processes side by side)
     vlib.conformance(o, FAMILY, T, C, "c20", probes, tag="probe", chunk=ch)
     vlib.conformance(o, FAMILY, T, C, "c20", scheds, tag="tlcgen", chunk=ch)
     vlib.conformance(o, FAMILY, T, C, "c20", rnd, tag="random", chunk=ch)
